@@ -106,19 +106,16 @@ theorem outcome_straddle (c : Cfg) (hwf : c.WF) (p : Params) (hub : p.userBounds
   outcome_straddle' c hwf p hub _ _ rfl h (resolve_fl c hwf p).1 (resolve_fl c hwf p).2
 
 /- **within** — full statement, FALSE of the code as written:
-     `realSamples c p = .ok L → bounds are numbers → ∀ x ∈ L, lo ≤ x ≤ hi`   (see `witness_zero_sign`). -/
-/-- **within_partial**: on `Sane` inputs every returned sample `x` satisfies `lo ≤ x ≤ hi` as floats
-(in particular is not NaN). -/
-theorem within_partial (c : Cfg) (hwf : c.WF) (p : Params) (h : Sane c p) :
-    ∃ L, realSamples c p = .ok L ∧
-      ∀ x ∈ L, fle c (resolveBounds c p).1 x = true ∧ fle c x (resolveBounds c p).2 = true := by
-  obtain ⟨L, _, _, e, r, _⟩ := bounded_main c hwf p h
-  have hn := regime_not_nan c hwf _ _ (by
-    rcases h.2 with ⟨h | h, _⟩ | ⟨h, _⟩
-    · exact Or.inl h
-    · exact Or.inr (Or.inl h)
-    · exact Or.inr (Or.inr h))
-  exact ⟨L, e, fun x hx => fle_of_range c hwf hn.1 hn.2 (r.range x hx)⟩
+     `realSamples c p = .ok L → bounds are numbers with lo < hi → ∀ x ∈ L, lo ≤ x ≤ hi`   (see `witness_zero_sign`). -/
+/-- **within_partial**: EVERY successful call with user bounds in a `Regime` (numbers with `lo < hi`, excluding exactly
+the two shapes with a zero bound of the wrong sign, `min_value = -0.0 < max_value` and `min_value < max_value = +0.0`)
+returns only samples `x` with `lo ≤ x ≤ hi` as floats (in particular no NaN), whatever the size. -/
+theorem within_partial (c : Cfg) (hwf : c.WF) (p : Params) (hub : p.userBounds = true) (hreg : Regime c p)
+    (L : List Nat) (hL : realSamples c p = .ok L) :
+    ∀ x ∈ L, fle c (resolveBounds c p).1 x = true ∧ fle c x (resolveBounds c p).2 = true := by
+  obtain ⟨_, _, r, _⟩ := range_main c hwf p hub hreg L hL
+  have hn := regime_not_nan c hwf _ _ hreg
+  exact fun x hx => fle_of_range c hwf hn.1 hn.2 (r.range x hx)
 
 /- **contains_bounds** — full statement, FALSE of the code as written:
      `realSamples c p = .ok L → 2 ≤ size → lo < hi → lo ∈ L ∧ hi ∈ L`   (see `witness_straddle_missing_bound`). -/
@@ -150,21 +147,21 @@ theorem contains_bounds_partial (c : Cfg) (hwf : c.WF) (p : Params) (h : Sane c 
   · omega
 
 /- **sorted (unique=False)** — full statement, FALSE of the code as written:
-     `realSamples c p = .ok L → L is non-decreasing`   (see `witness_nonunique_unsorted`). -/
-/-- **sorted_nonunique_partial**: on `Sane` inputs (user bounds) the result is non-decreasing whatever `unique`
-is (with `unique` it is strictly increasing by `sorted_unique`). -/
-theorem sorted_nonunique_partial (c : Cfg) (hwf : c.WF) (p : Params) (h : Sane c p) :
-    ∃ L, realSamples c p = .ok L ∧ Sorted c L := by
-  obtain ⟨L, _, _, e, r, _⟩ := bounded_main c hwf p h
-  exact ⟨L, e, r.sorted⟩
+     `realSamples c p = .ok L → L is non-decreasing`   (see `witness_nonunique_unsorted`: no bounds given). -/
+/-- **sorted_nonunique_partial**: every successful call with user bounds in a `Regime` returns a non-decreasing array
+whatever `unique` is (with `unique` it is strictly increasing by `sorted_unique`). -/
+theorem sorted_nonunique_partial (c : Cfg) (hwf : c.WF) (p : Params) (hub : p.userBounds = true) (hreg : Regime c p)
+    (L : List Nat) (hL : realSamples c p = .ok L) : Sorted c L := by
+  obtain ⟨_, _, r, _⟩ := range_main c hwf p hub hreg L hL
+  exact r.sorted
 
-/-- **uniform_partial** (the equal-spacing clause on the returned array, `Sane` inputs): there are gaps `qn`, `qp`
-such that any two *adjacent* returned samples that are both negative finite nonzero differ by `qn` or `qn + 1` units
-in the last place (bit patterns), and both positive finite nonzero by `qp` or `qp + 1`. -/
-theorem uniform_partial (c : Cfg) (hwf : c.WF) (p : Params) (h : Sane c p) :
-    ∃ L qn qp, realSamples c p = .ok L ∧ Adj (Gap c qn qp) L := by
-  obtain ⟨L, qn, qp, e, r, _⟩ := bounded_main c hwf p h
-  exact ⟨L, qn, qp, e, r.gaps⟩
+/-- **uniform_partial** (the equal-spacing clause on the returned array; every successful call with user bounds in a
+`Regime`): there are gaps `qn`, `qp` such that any two *adjacent* returned samples that are both negative finite nonzero
+differ by `qn` or `qn + 1` units in the last place (bit patterns), and both positive finite nonzero by `qp` or `qp + 1`. -/
+theorem uniform_partial (c : Cfg) (hwf : c.WF) (p : Params) (hub : p.userBounds = true) (hreg : Regime c p)
+    (L : List Nat) (hL : realSamples c p = .ok L) : ∃ qn qp, Adj (Gap c qn qp) L := by
+  obtain ⟨qn, qp, r, _⟩ := range_main c hwf p hub hreg L hL
+  exact ⟨qn, qp, r.gaps⟩
 
 /-- **within_unbounded / contains_unbounded** (no bounds given, `num ≥ 2`, e.g. `size ≥ 6`): every sample is one
 of the requested special values (`extras`: −inf, 0, +inf, NaN as requested) or finite with
@@ -296,6 +293,10 @@ example : Sane cfg16 { size := 10, minValue := some 0xbc00, maxValue := some 0x3
 
 example : realSamples cfg16 { size := 10, minValue := some 0xbc00, maxValue := some 0x3c00 } =
     .ok [48128, 44544, 40960, 37376, 33792, 0, 1024, 5802, 10581, 15360] := by decide
+
+/-- a lopsided straddling range: in a `Regime`, the call succeeds, but it is not `Sane` (`neg_num = 0`) -/
+example : Regime cfg16 { size := 10, minValue := some 0x868e, maxValue := some 0x63d0 } := by
+  unfold Regime SamePos SameNeg Straddle; decide
 
 /-- a positive range with a subnormal lower bound (moved to zero) and size above the number of values -/
 example : Sane cfg16 { size := 7, minValue := some 0x0003, maxValue := some 0x0402, unique := false } := by
